@@ -319,3 +319,22 @@ func (u *Unit) convertInt(x string, from, to types.Type) string {
 	}
 	return ite(and(app("<=", ilitB(tlo), x), app("<=", x, ilitB(thi))), x, w)
 }
+
+// convertIntWrap wraps a mathematical result into the range of Go type t.
+func (u *Unit) convertIntWrap(x string, t types.Type) string {
+	bits, signed, _ := intInfo(t)
+	lo, hi := intRange(t)
+	if v, ok := parseLit(x); ok {
+		m := new(big.Int).Mod(v, pow2(bits))
+		if signed && m.Cmp(pow2(bits-1)) >= 0 {
+			m.Sub(m, pow2(bits))
+		}
+		return ilitB(m)
+	}
+	m := imodc(x, pow2(bits))
+	w := m
+	if signed {
+		w = ite(app(">=", m, ilitB(pow2(bits-1))), isub(m, ilitB(pow2(bits))), m)
+	}
+	return ite(and(app("<=", ilitB(lo), x), app("<=", x, ilitB(hi))), x, w)
+}
